@@ -19,6 +19,16 @@ static void make_seq (int q, int with_error, int r, int e)
   for (i = r; i < e; i++) { p_map[seqn] = i; seq[seqn++] = p_sym[i]; }
 }
 
+static struct yaep_tree_node *seen_terms[64]; static int nseen_terms;
+static void collect_terms (struct yaep_tree_node *n, int depth)
+{
+  int k;
+  if (n == NULL || depth > 40) return;
+  if (n->type == YAEP_TERM) { for (k = 0; k < nseen_terms; k++) if (seen_terms[k] == n) return; if (nseen_terms < 64) seen_terms[nseen_terms++] = n; }
+  else if (n->type == YAEP_ANODE) for (k = 0; n->val.anode.children[k]; k++) collect_terms (n->val.anode.children[k], depth + 1);
+  else if (n->type == YAEP_ALT) { collect_terms (n->val.alt.node, depth + 1); collect_terms (n->val.alt.next, depth + 1); }
+}
+
 /* repairs: up to kmax disjoint segments (possibly empty, possibly adjacent), total replaced == total */
 static int seg_a[8], seg_b[8];
 static int count_err (int d) { const struct dtree *D = &d_t[d]; int k, c = D->n->type == YAEP_ERROR; for (k = 0; k < D->nch; k++) c += count_err (D->ch[k]); return c; }
@@ -115,6 +125,16 @@ void harness (void)
       if (r.root != NULL)
         {
           bad = t_wellformed (r.root, !c.one);
+          if (bad == 0)
+            { /* cheap check for inputs of any length: a TERM node carries the attribute of some token with the node's code */
+              int k, q; nseen_terms = 0; collect_terms (r.root, 0);
+              for (k = 0; k < nseen_terms; k++)
+                {
+                  int okk = 0;
+                  for (q = 0; q < n; q++) okk |= (seen_terms[k]->val.term.code == p_code[q]) & ((long) seen_terms[k]->val.term.attr == p_attr[q]);
+                  sx_assert (okk, "C07: every TERM node carries code and attribute of one input token");
+                }
+            }
           sx_observe ("bad", bad);
           sx_assert (bad == 0, "C07: tree well-formed");
           if (bad == 0 && !ok && p_nerr >= 1 && p_nerr <= 3 && p_n > (int) sx_param ("repair_maxlen", 8)) sx_reach ("C07: input longer than repair_maxlen (repair enumeration skipped)");
@@ -131,9 +151,9 @@ void harness (void)
                     {
                       for (i = 0; i < dlen; i++) cover[i] = cover_s[i] = 0;
                       single_count = 0; the_root = r.root;
-                      { int kmax = 1, e; for (i = 0; i < dlen; i++) { e = count_err (d_list[dstart + i]); if (e > kmax) kmax = e; }
+                      { int kmax = p_nerr + 1, e; for (i = 0; i < dlen; i++) { e = count_err (d_list[dstart + i]); if (e > kmax) kmax = e; }   /* error nodes are not always translated: at least one segment more than callbacks */
                         /* as many segments as the tree has error nodes: one call may stand for several of them (secondary recovery states) */
-                        if (kmax > 6) { sx_reach ("C07: more than 6 error nodes (repair enumeration skipped)"); kmax = 0; }
+                        if (kmax > (int) sx_param ("repair_kmax", 4)) { sx_reach ("C07: more error segments than repair_kmax (repair enumeration skipped)"); kmax = 0; }
                         if (g_errsym () >= 0 && kmax > 0) enum_repairs (0, kmax, 0, total); else if (kmax == 0) for (i = 0; i < dlen; i++) cover[i] = cover_s[i] = 1; }
                       /* total loss through the implicit rule: everything replaced, translation is the empty node */
                       if (implicit_rule () && total == n)
